@@ -14,6 +14,7 @@ from vlib import *
 INF = float('inf')
 NAN = float('nan')
 OWRUN = os.path.join(HARNESS, 'bin', 'owrun-c16')
+COINCIDE_FRACTION = 0.3     # share of the cases of every model whose input series get plateaus / coincidences
 RESULT_RE = re.compile(r'^(OK |PANIC|NOMODEL|NOCMD|ERROR)')
 
 
@@ -49,9 +50,17 @@ def nice(rng):
 
 def flow_series(rng, n):
     """non-negative flows in five regimes, with exact zeros"""
-    reg = rng.choice(['dry', 'wet', 'intermittent', 'pulse', 'storm', 'tiny'])
+    reg = rng.choice(['dry', 'wet', 'intermittent', 'pulse', 'storm', 'tiny', 'plateau'])
     if reg == 'dry':
         return [0.0] * n
+    if reg == 'plateau':
+        # piecewise constant (regulated releases, disaggregated monthly data): runs of 1..6 bit-identical values,
+        # with zero runs in between
+        out = []
+        while len(out) < n:
+            v = rng.choice([0.0, rng.uniform(0.01, 50.0), rng.uniform(0.01, 50.0), nice(rng)])
+            out += [v] * rng.randint(1, 6)
+        return out[:n]
     if reg == 'wet':
         return [rng.uniform(0.01, 50.0) for _ in range(n)]
     if reg == 'intermittent':
@@ -86,7 +95,102 @@ def any_series(rng, n):
 
 
 def frac_series(rng, n):
+    if rng.random() < 0.2:
+        out = []
+        while len(out) < n:
+            out += [rng.choice([0.0, 1.0, 0.5, rng.random()])] * rng.randint(1, 6)
+        return out[:n]
     return [rng.choice([0.0, 1.0, 0.5, rng.random(), rng.random(), rng.uniform(-0.5, 1.5)]) for _ in range(n)]
+
+
+# ---- plateaus and coincidences between the input series of one case (applied to a fraction of all cases of
+# every model, after the model's own generator): the kernels are pointwise in time, so an implementation that
+# carries anything from one step to the next (memo on one input, stale local, skipped write) is exposed only when
+# one input repeats bit-identically while another one moves.
+def model_thresholds(name, p, meta):
+    """input index -> values at which the spec / the code switches behaviour"""
+    if name == 'PassLoadIfFlow':
+        return {0: [1e-8, math.nextafter(1e-8, INF), math.nextafter(1e-8, 0.0), 0.0]}
+    if name == 'Gate':
+        return {0: [0.0, -0.0, 5e-324]}
+    if name == 'ComputeProportion':
+        return {1: [0.0, -0.0]}
+    if name == 'PartitionDemand':
+        return {0: [0.0], 1: [0.0]}
+    if name == 'USLEFineSedimentGeneration':
+        return {0: [0.0], 2: [p[2], math.nextafter(p[2], INF), 0.0], 3: [0.0], 4: [0.0]}
+    if name.startswith('DynamicSednetGully'):
+        return {0: [0.0], 1: [p[0], p[1], p[0] - 1, p[1] + 1], 2: [0.0], 3: [0.0]}
+    if name == 'BankErosion':
+        return {0: [0.0], 1: [0.0, -0.0, 5e-324]}
+    if name == 'RatingCurvePartition':
+        return {0: list(meta['xs'])} if meta.get('wellformed') else {}
+    return None       # default: 0.0 on every input
+
+
+def coincide(rng, name, p, ins, meta):
+    """-> (new inputs, list of class labels).  Classes:
+       plateau          one input repeats one value bit-identically over 2..6 consecutive steps
+       plateau+toggle   ... while every other input switches between 0 and a positive value on those steps
+       equal-inputs     two inputs are bit-equal on some steps
+       threshold        an input sits exactly on (or one ulp beside) a threshold of the model
+       zero-run         a run of 1..6 exact zeros in one input, independently of the others"""
+    k_in = len(ins)
+    n = len(ins[0]) if k_in else 0
+    if n < 2:
+        return ins, []
+    ins = [list(r) for r in ins]
+    rating = name == 'RatingCurvePartition'
+    kinds = ['plateau', 'plateau', 'threshold', 'zero-run']
+    if k_in >= 2:
+        kinds += ['plateau+toggle', 'plateau+toggle', 'plateau+toggle', 'equal-inputs']
+    if rating:
+        kinds = ['plateau', 'threshold']
+    labels = []
+    for kind in rng.sample(kinds, rng.choice([1, 1, 2, 3]) if len(kinds) >= 3 else 1):
+        for _rep in range(rng.choice([1, 1, 2, 3]) if n >= 7 else 1):
+            k = rng.randrange(k_in)
+            ln = rng.randint(2, min(6, n))
+            a = rng.randint(0, n - ln)
+            if kind.startswith('plateau'):
+                v = ins[k][a]
+                if not rating and (v == 0.0 or rng.random() < 0.3):
+                    v = rng.choice([abs(v), rng.uniform(0.5, 50.0), nice(rng)]) if rng.random() < 0.85 else 0.0
+                for t in range(a, a + ln):
+                    ins[k][t] = v
+                if kind == 'plateau+toggle':
+                    for j in range(k_in):
+                        if j == k:
+                            continue
+                        phase = rng.randrange(2)
+                        for t in range(a, a + ln):
+                            cur = ins[j][t]
+                            pos = abs(cur) if (cur != 0.0 and abs(cur) >= 2.3e-308) else rng.uniform(0.5, 50.0)
+                            ins[j][t] = pos if (t + phase) % 2 == 0 else rng.choice([0.0, 0.0, 0.0, -pos])
+            elif kind == 'equal-inputs':
+                j = rng.choice([x for x in range(k_in) if x != k])
+                for t in range(a, a + ln):
+                    ins[j][t] = ins[k][t]
+            elif kind == 'threshold':
+                th = model_thresholds(name, p, meta)
+                if th is None:
+                    th = {x: [0.0] for x in range(k_in)}
+                if not th:
+                    continue
+                k = rng.choice(sorted(th))
+                for t in range(a, a + ln):
+                    if rng.random() < 0.7:
+                        ins[k][t] = rng.choice(th[k])
+            else:
+                for t in range(a, a + rng.randint(1, ln)):
+                    ins[k][t] = 0.0
+        labels.append(kind)
+    if rating and meta.get('wellformed'):
+        xs = meta['xs']
+        meta['inside'] = all(xs[0] <= v <= xs[-1] for v in ins[0])
+    if name in ('BankErosion', 'USLEFineSedimentGeneration', 'DynamicSednetGully'):
+        ins[0] = normal_only(ins[0])
+    return ins, labels
 
 
 def series_len(rng):
@@ -104,6 +208,12 @@ def pos_param(rng, lo=0.0, hi=100.0):
 
 def any_param(rng):
     return rng.choice([0.0, 1.0, -1.0, rng.uniform(-10, 10), rng.uniform(0, 1), nice(rng), -nice(rng), rng.uniform(0, 1e4)])
+
+
+def tiny_nonzero(rng):
+    """parameters that are legal, non-zero, but close to the exact `== 0.0` tests of the early-return paths
+    (unit conversions between far-apart units: mg -> t is 1e-9)"""
+    return rng.choice([1e-9, 1e-12, 3.7e-12, -1e-10, 9.999e-9, 1e-8, 1e-300, 5e-324, -5e-324])
 
 
 def special(rng, xs):
@@ -308,7 +418,8 @@ class Gate:
 class _Scaling:
     @staticmethod
     def gen(rng):
-        return [rng.choice([0.0, 1.0, -0.0, rng.random(), any_param(rng)])], [any_series(rng, series_len(rng))], {}
+        return [rng.choice([0.0, 1.0, -0.0, rng.random(), any_param(rng), any_param(rng), tiny_nonzero(rng)])], \
+            [any_series(rng, series_len(rng))], {}
 
     @staticmethod
     def oracle(p, ins, o, meta):
@@ -325,7 +436,7 @@ class DepthToRate:
     @staticmethod
     def gen(rng):
         dt = rng.choice([86400.0, 3600.0, 1.0, rng.uniform(1, 86400), rng.uniform(1, 86400)])
-        area = rng.choice([0.0, 1.0, 1e4, 1e6, rng.uniform(0, 1e9), rng.uniform(0, 1e9), -5.0])
+        area = rng.choice([0.0, 1.0, 1e4, 1e6, rng.uniform(0, 1e9), rng.uniform(0, 1e9), rng.uniform(0, 1e9), -5.0, tiny_nonzero(rng)])
         return [dt, area], [any_series(rng, series_len(rng))], {}
 
     @staticmethod
@@ -364,7 +475,8 @@ class BaseflowFilter:
 
 
 def conc_param(rng):
-    return rng.choice([0.0, 0.1, 1.0, 10000.0, rng.uniform(0.1, 10000), rng.uniform(0.1, 100), -3.0])
+    return rng.choice([0.0, 0.1, 1.0, 10000.0, rng.uniform(0.1, 10000), rng.uniform(0.1, 10000), rng.uniform(0.1, 100),
+                       rng.uniform(0.1, 100), -3.0, tiny_nonzero(rng)])
 
 
 def check_conc_loads(t, q, c, load, what):
@@ -419,7 +531,7 @@ class PassLoadIfFlow:
     @staticmethod
     def gen(rng):
         n = series_len(rng)
-        return [rng.choice([0.0, 1.0, any_param(rng)])], [flow_series(rng, n), any_series(rng, n)], {}
+        return [rng.choice([0.0, 1.0, any_param(rng), any_param(rng), tiny_nonzero(rng)])], [flow_series(rng, n), any_series(rng, n)], {}
 
     @staticmethod
     def oracle(p, ins, o, meta):
@@ -660,6 +772,9 @@ def branches(name, p, ins, o, meta):
     elif name == 'BankErosion':
         for q, v in zip(ins[0], ins[1]):
             b.add('zero-factor' if (v <= 0 or q <= 0 or p[11] <= 0) else 'generating')
+        for t in range(1, n):
+            if ins[0][t] == ins[0][t - 1] > 0 and ((ins[1][t] > 0) != (ins[1][t - 1] > 0)) and p[11] > 0:
+                b.add('same-outflow-volume-crosses-zero')
     elif name == 'SednetParticulateNutrientGeneration':
         b.add('creams-flag-on' if p[8] > 0.5 else 'creams-flag-off')
     elif name == 'USLEFineSedimentGeneration' and o is not None:
@@ -687,6 +802,29 @@ def branches(name, p, ins, o, meta):
                 if not name.endswith('Alt'):
                     b.add('orig:power-factor' if p[7] > 0 else 'orig:no-longterm-factor')
     return b
+
+
+def measured_coincidences(ins):
+    """what a case's input series actually contain (measured, whatever generated it)"""
+    labs = set()
+    k_in = len(ins)
+    n = len(ins[0]) if k_in else 0
+    for k in range(k_in):
+        r = ins[k]
+        for t in range(1, n):
+            if r[t] == r[t - 1] and r[t] != 0.0:
+                labs.add('repeated-nonzero-value')
+                for j in range(k_in):
+                    if j != k and ((ins[j][t] > 0) != (ins[j][t - 1] > 0)):
+                        labs.add('repeated-value-while-another-input-crosses-zero')
+                    if j != k and ins[j][t] != ins[j][t - 1]:
+                        labs.add('repeated-value-while-another-input-changes')
+            if r[t] == 0.0 and r[t - 1] == 0.0:
+                labs.add('zero-run')
+        for j in range(k + 1, k_in):
+            if any(a == b and a != 0.0 for a, b in zip(r, ins[j])):
+                labs.add('two-inputs-equal-nonzero')
+    return labs
 
 
 def agree(ri, rm, exact):
@@ -768,6 +906,9 @@ def main():
     for name, m in MODELS.items():
         for _ in range(per_model):
             p, ins, meta = m.gen(rng)
+            if rng.random() < COINCIDE_FRACTION:
+                ins, labels = coincide(rng, name, p, ins, meta)
+                meta['series_classes'] = labels
             cases.append((name, p, ins, meta, 'main'))
         if m.exact and name != 'RatingCurvePartition':
             for _ in range(per_model // 10):
@@ -781,12 +922,21 @@ def main():
     mod = run_filtered(os.path.join(OCAML, 'driver'), lines, 'MODELCRASH')
 
     stats = {}
+    class_totals = {}
+    measured_totals = {}
     oracle_evals = 0
     for i, ((name, p, ins, meta, stream), li, lm) in enumerate(zip(cases, impl, mod)):
         m = MODELS[name]
         ri, rm = parse_kresult(li), parse_kresult(lm)
-        st = stats.setdefault(name, {'cases': 0, 'nontrivial': 0, 'impl_panics': 0, 'oracle_steps': 0, 'branches': {}})
+        st = stats.setdefault(name, {'cases': 0, 'nontrivial': 0, 'impl_panics': 0, 'oracle_steps': 0, 'branches': {},
+                                     'series_classes': {}})
         st['cases'] += 1
+        for lab in meta.get('series_classes', []):
+            st['series_classes'][lab] = st['series_classes'].get(lab, 0) + 1
+            class_totals[lab] = class_totals.get(lab, 0) + 1
+        if stream == 'main':
+            for lab in measured_coincidences(ins):
+                measured_totals[lab] = measured_totals.get(lab, 0) + 1
         if stream == 'main':
             for lab in branches(name, p, ins, ri[1] if ri[0] == 'OK' else None, meta):
                 st['branches'][lab] = st['branches'].get(lab, 0) + 1
@@ -824,10 +974,15 @@ def main():
                      'negative values; input series of lengths 0,1,2,7,40,400 in six regimes (dry, wet, intermittent, pulse, storm, '
                      'tiny values around 1e-8) with exact zeros and negatives; negative / zero / excessive demand; rating tables of 2-30 '
                      'points queried inside, at the knots, just outside, with repeated knots, unsorted, and malformed columns; '
-                     'a NaN/+Inf stream compared model-vs-code only.  Each case runs through sim.Catalog (owrun) and the extracted '
+                     'a NaN/+Inf stream compared model-vs-code only; 30 % of the cases of every model additionally get PLATEAUS and '
+                     'COINCIDENCES in their input series (one input bit-identical over 2..6 consecutive steps, alone or while every '
+                     'other input toggles between 0 and positive; two inputs equal on some steps; inputs exactly on / one ulp beside '
+                     'the thresholds of the model: 0, 1e-8, RainThreshold, YearDisturbance, GullyEndYear, rating knots; independent '
+                     'zero runs), counted in series_classes / measured_series_coincidences.  Each case runs through sim.Catalog (owrun) and the extracted '
                      'Coq kernel; the property oracle is evaluated on the implementation output.  non-trivial = the implementation '
                      'returned a result with at least one non-zero output value; distinct by (model, params, inputs)')
     c.finish(extra_cov={'per_model': stats, 'oracle_case_evaluations': oracle_evals, 'exhaustive': False,
+                        'series_classes': class_totals, 'measured_series_coincidences': measured_totals,
                         'comparison': {n: ('bit-exact' if m.exact else 'rtol 1e-9 (pow/cos through libm)') for n, m in MODELS.items()}},
              assumptions=['theorems are over exact real arithmetic (RArith); float round-off is covered only by the tolerance oracle '
                           '(1e-12 relative for sums/products, 1e-9 where pow/cos are involved)',
